@@ -4,6 +4,8 @@ import (
 	"bytes"
 	"encoding/json"
 	"fmt"
+	"sync"
+	"time"
 	"sync/atomic"
 
 	"github.com/alttpo/snes/emulator"
@@ -116,7 +118,7 @@ type c12Instr struct {
 
 var c12Alphabet = []c12Instr{
 	{"NOP", []byte{0xEA}}, {"INX", []byte{0xE8}}, {"LDA #$1234", []byte{0xA9, 0x34, 0x12}}, {"STA $10", []byte{0x85, 0x10}},
-	{"PHA", []byte{0x48}}, {"PLA", []byte{0x68}}, {"BRA -2", []byte{0x80, 0xFE}}, {"BNE -3", []byte{0xD0, 0xFD}}, {"BRA +1", []byte{0x80, 0x01}},
+	{"PHA", []byte{0x48}}, {"PLA", []byte{0x68}}, {"BRA -2", []byte{0x80, 0xFE}}, {"BRA -3", []byte{0x80, 0xFD}}, {"BNE -3", []byte{0xD0, 0xFD}}, {"BRA +1", []byte{0x80, 0x01}},
 	{"JMP self", nil}, {"STP", []byte{0xDB}}, {"WDM #$07", []byte{0x42, 0x07}}, {"MVN $7E,$7E", []byte{0x54, 0x7E, 0x7E}}, {"JSR next", nil}, {"RTS", []byte{0x60}}, {"DEX", []byte{0xCA}},
 }
 
@@ -131,6 +133,37 @@ type c12Run struct {
 
 type c12World struct {
 	sut, twin *emulator.System
+	// watchdog: what this world is executing right now and since when (guarded by c12WatchMu)
+	busy    *c12Run
+	started time.Time
+}
+
+var (
+	c12WatchMu     sync.Mutex
+	c12WatchWorlds []*c12World
+)
+
+// c12Watchdog turns a RunUntil that never returns (possible only if Step stops reporting cycles
+// without even reaching the program-counter callbacks) into a reported violation instead of a hung
+// checker. The limit is four orders of magnitude above what a scenario takes; the checker then
+// reports the violation and exits, giving up the rest of the exploration.
+func c12Watchdog(r *report.Run, id string, limit time.Duration) {
+	go func() {
+		for {
+			time.Sleep(2 * time.Second)
+			c12WatchMu.Lock()
+			for _, w := range c12WatchWorlds {
+				if w.busy != nil && time.Since(w.started) > limit {
+					rr := *w.busy
+					c12WatchMu.Unlock()
+					r.Incomplete("exploration abandoned: a RunUntil call did not return")
+					r.Violation("unexplained:rununtil-does-not-return", fmt.Sprintf("RunUntil did not return within %v (program %v at $%06x target $%06x budget %d logger %d): it keeps looping without consuming cycles", limit, rr.Prog, rr.Start, rr.Target, rr.Budget, rr.Logger), rr)
+					r.Finish()
+				}
+			}
+			c12WatchMu.Unlock()
+		}
+	}()
 }
 
 func c12NewWorld() (*c12World, error) {
@@ -141,6 +174,9 @@ func c12NewWorld() (*c12World, error) {
 	if err := w.twin.CreateEmulator(); err != nil {
 		return nil, err
 	}
+	c12WatchMu.Lock()
+	c12WatchWorlds = append(c12WatchWorlds, w)
+	c12WatchMu.Unlock()
 	return w, nil
 }
 
@@ -296,10 +332,16 @@ func c12Exec(w *c12World, r c12Run) (sig, what string) {
 	w.sut.CPU.OnPC = cb
 	var got bool
 	var pn interface{}
+	c12WatchMu.Lock()
+	w.busy, w.started = &r, time.Now()
+	c12WatchMu.Unlock()
 	func() {
 		defer func() { pn = recover() }()
 		got = w.sut.RunUntil(r.Target, r.Budget)
 	}()
+	c12WatchMu.Lock()
+	w.busy = nil
+	c12WatchMu.Unlock()
 	desc := func() string {
 		return fmt.Sprintf("program %v at $%06x target $%06x budget %d logger %d", r.Prog, r.Start, r.Target, r.Budget, r.Logger)
 	}
@@ -467,6 +509,7 @@ func runC12(r *report.Run) {
 		budgets = append(budgets, 4, 6, 7, 21, 100)
 	}
 	runs := c12Scenarios(pdepth, []int{0}, budgets)
+	c12Watchdog(r, "C12", 120*time.Second)
 	worlds := make([]*c12World, par.Workers())
 	var executed int64
 	par.For(len(runs), func(wk, i int) {
